@@ -116,7 +116,8 @@ type caseRec struct {
 	Variant string   `json:"variant"`
 	Height  uint32   `json:"height"`
 	Focus   bool     `json:"focus,omitempty"`
-	Top     uint32   `json:"top,omitempty"` // extension families: the chain is grown to this height
+	Top     uint32   `json:"top,omitempty"`  // extension families: the chain is grown to this height
+	Spec    string   `json:"spec,omitempty"` // family synced: sync point, data mode, delivery order, restarts
 	Oracle  string   `json:"oracle"`
 	Class   string   `json:"class"`
 	Call    string   `json:"call"`
@@ -140,6 +141,7 @@ type ctx struct {
 	rpcSeen  sync.Map // family/root -> the rpc family did its exhaustive pass
 	deepAll  bool     // replay: no dedup
 	cont     contCounters
+	synced   syncedCounters
 }
 
 // run is one history on one replica.
@@ -168,6 +170,11 @@ type run struct {
 	// heights below this one get the whole-trie range reads only (family reset-cont: the preamble
 	// heights no reset touched, which a designated case of every group questions in full)
 	lightBelow uint32
+	// family synced: the replica holds no state below this height (it jumped there)
+	minRetained uint32
+	// trie mode of the TrieStore the exhaustive O1 pass builds (as GetTestHistoricVM chooses it for the replica's configuration)
+	deepMode mpt.TrieMode
+	spec     string
 }
 
 // out notes an outcome class seen in this history run (flushed once per run:
@@ -188,10 +195,13 @@ func (c *run) fail(oracle, class string, s *snap, call, got, want string) {
 	if len(want) > 600 {
 		want = want[:600] + "..."
 	}
-	c.viol = append(c.viol, &caseRec{Kind: c.kind, Top: c.top, Family: c.fam.Name, Pad: c.fam.Pad, History: c.names, Variant: c.v.Name, Focus: c.fam.Focus, Height: s.H, Oracle: oracle, Class: class, Call: call, Got: got, Want: want})
+	c.viol = append(c.viol, &caseRec{Kind: c.kind, Top: c.top, Spec: c.spec, Family: c.fam.Name, Pad: c.fam.Pad, History: c.names, Variant: c.v.Name, Focus: c.fam.Focus, Height: s.H, Oracle: oracle, Class: class, Call: call, Got: got, Want: want})
 }
 
 func (r *caseRec) key() string {
+	if r.Spec != "" {
+		return fmt.Sprintf("%s:%s:%s:%s:%s:%s:%s:h%d:%s", r.Oracle, r.Class, r.Kind, r.Family, r.Variant, strings.Join(r.History, ","), r.Spec, r.Height, r.Call)
+	}
 	if r.Kind != "" {
 		return fmt.Sprintf("%s:%s:%s:%s:%s:%s:h%d:%s", r.Oracle, r.Class, r.Kind, r.Family, r.Variant, strings.Join(r.History, ","), r.Height, r.Call)
 	}
@@ -206,7 +216,12 @@ func (cx *ctx) newRun(sc *chainx.Scenario, fam famSpec, v nodeVariant, h []int) 
 	if err != nil {
 		return nil, err
 	}
-	c := &run{cx: cx, fam: fam, v: v, names: sc.Names(h), n: n, w: sc.World.Attach(n), sc: sc, reported: map[string]bool{}, nfail: map[string]int{}, outcomes: map[string]struct{}{}}
+	return cx.runOn(sc, fam, v, sc.Names(h), n)
+}
+
+// runOn makes a run of an existing replica.
+func (cx *ctx) runOn(sc *chainx.Scenario, fam famSpec, v nodeVariant, names []string, n *chainx.Node) (*run, error) {
+	c := &run{cx: cx, fam: fam, v: v, names: names, n: n, w: sc.World.Attach(n), sc: sc, reported: map[string]bool{}, nfail: map[string]int{}, outcomes: map[string]struct{}{}}
 	c.sm, c.mod = module(n)
 	if c.mod == nil {
 		n.Close()
@@ -351,10 +366,10 @@ func (c *run) retainedFrom() uint32 {
 	case c.v.GC:
 		mtb := c.n.BC.GetMaxTraceableBlocks()
 		if H > mtb {
-			return H - mtb
+			return max(H-mtb, c.minRetained)
 		}
 	}
-	return 0
+	return c.minRetained
 }
 
 // buildUniverse computes the key universe: every key present at some height + absent probes.
@@ -614,7 +629,7 @@ func (c *run) light(s *snap, retained bool) {
 // (from empty to the full key), every start, maxNum in {1,2,all}.
 func (c *run) deep(s *snap) {
 	seen := map[string]struct{}{}
-	mode := mpt.ModeAll
+	mode := c.deepMode
 	for _, k := range c.deepKeys {
 		for l := 0; l <= len(k); l++ {
 			p := k[:l]
@@ -884,6 +899,7 @@ func TestCheck(t *testing.T) {
 	r := vk.Start("C03", "model_checking", 170*time.Second, 24*time.Minute)
 	cx := &ctx{r: r, roots: vk.NewSet(), states: vk.NewSet()}
 	cx.cont.relations = vk.NewSet()
+	cx.synced.tries = vk.NewSet()
 	if r.Replay != "" {
 		replay(cx)
 		return
@@ -1033,36 +1049,43 @@ func TestCheck(t *testing.T) {
 		avg = c.keys.Get() / c.heights.Get()
 	}
 	r.Finish(map[string]any{
-		"states":                         cx.states.Len(),
-		"transitions":                    int(c.blocks.Get()),
-		"traces_validated_against_impl":  int(c.histRuns.Get() + c.extRuns.Get()),
-		"extension_families":             extCoverage(cx),
-		"histories":                      hist,
-		"histories_not_applicable":       notApplicable,
-		"plans":                          planDesc,
-		"block_alphabet":                 tplNames(r.Thorough()),
-		"families":                       famNames,
-		"distinct_state_roots":           cx.roots.Len(),
-		"heights_checked":                int(c.heights.Get()),
-		"heights_not_retained":           int(c.nonRetained.Get()),
-		"keys_per_height_min_avg_max":    []int64{c.minKeys, avg, c.maxKeys},
-		"roots_with_exhaustive_O1":       int(c.deepRoots.Get()),
-		"findstates_calls":               int(c.finds.Get()),
-		"seekstates_calls":               int(c.seeks.Get()),
-		"triestore_seek_calls":           int(c.storeSeeks.Get()),
-		"getstate_calls":                 int(c.gets.Get()),
-		"proofs_verified_to_value":       int(c.proofsOK.Get()),
-		"proofs_refused_for_absent_keys": int(c.proofsRefused.Get()),
-		"foreign_proof_verifications":    int(c.crossProofs.Get()),
-		"live_invocations_recorded":      int(c.liveInv.Get()),
-		"historic_invocations_equal":     int(c.histInv.Get()),
-		"historic_invocations_halted":    int(c.histInvHalt.Get()),
-		"rule":                           "every history = preamble + depth blocks of the plan's alphabet (all K^depth) per family and plan; state = (family, node variant, height, state root); exhaustive O1 once per distinct (family, root), the other oracles at every height of every history",
+		"states":                                 cx.states.Len(),
+		"transitions":                            int(c.blocks.Get()),
+		"traces_validated_against_impl":          int(c.histRuns.Get() + c.extRuns.Get()),
+		"extension_families":                     extCoverage(cx),
+		"synced_cases":                           int(cx.synced.cases.Get()),
+		"synced_state_jumps":                     int(cx.synced.jumps.Get()),
+		"synced_distinct_tries":                  cx.synced.tries.Len(),
+		"synced_cases_shared_inner_nodes":        int(cx.synced.sharedCases.Get()),
+		"synced_mpt_nodes_handed_over":           int(cx.synced.nodesHandedOver.Get()),
+		"synced_heights_compared_with_reference": int(cx.synced.refHeights.Get()),
+		"histories":                              hist,
+		"histories_not_applicable":               notApplicable,
+		"plans":                                  planDesc,
+		"block_alphabet":                         tplNames(r.Thorough()),
+		"families":                               famNames,
+		"distinct_state_roots":                   cx.roots.Len(),
+		"heights_checked":                        int(c.heights.Get()),
+		"heights_not_retained":                   int(c.nonRetained.Get()),
+		"keys_per_height_min_avg_max":            []int64{c.minKeys, avg, c.maxKeys},
+		"roots_with_exhaustive_O1":               int(c.deepRoots.Get()),
+		"findstates_calls":                       int(c.finds.Get()),
+		"seekstates_calls":                       int(c.seeks.Get()),
+		"triestore_seek_calls":                   int(c.storeSeeks.Get()),
+		"getstate_calls":                         int(c.gets.Get()),
+		"proofs_verified_to_value":               int(c.proofsOK.Get()),
+		"proofs_refused_for_absent_keys":         int(c.proofsRefused.Get()),
+		"foreign_proof_verifications":            int(c.crossProofs.Get()),
+		"live_invocations_recorded":              int(c.liveInv.Get()),
+		"historic_invocations_equal":             int(c.histInv.Get()),
+		"historic_invocations_halted":            int(c.histInvHalt.Get()),
+		"rule":                                   "every history = preamble + depth blocks of the plan's alphabet (all K^depth) per family and plan; state = (family, node variant, height, state root); exhaustive O1 once per distinct (family, root), the other oracles at every height of every history",
 	}, []string{
 		"map_h is read from the live node through Blockchain.SeekStorage over ids -16..-1 and 1..6 (the flat storage, not the trie)",
 		"FindStates/SeekStates/TrieStore.Seek range semantics are taken from their doc comments (ordered map: forwards = keys >= prefix+start ascending, backwards = keys <= prefix+start descending); for an empty FindStates result both ErrNotFound and an empty list are accepted",
 		"pruned variants (RemoveUntraceableBlocks+GC after every flush, KeepOnlyLatestState) are held to O1-O3 for heights >= height-MaxTraceableBlocks (latest: the top height); below that an error / panic / early end of a listing or data equal to map_h is accepted, different data is not; historic invocations: with RemoveUntraceableBlocks they must agree for every retained height (docs/rpc.md only warns of limitations on available data) and below the window may be refused or FAULT but must not HALT with other data; with KeepOnlyLatestState they are unsupported",
 		"historic invocations are compared on VM state, stack, gas consumed and fault message; scripts do not read time",
+		"family synced: the source serves only valid data (its own headers, trie nodes / items of the sync point, blocks); a replica that refuses it, panics or does not jump is reported (O7-sync-process) because no state exists to question; the synced replica is compared with an archival replica of the same protocol family that executed every block (state root, flat storage, live invocation results at the sync point and at every later height); heights below the sync point are not questioned; a restart right after the jump announces the network height of the first start (Module.Init refuses a synced-but-not-caught-up replica when the network is two intervals ahead: C20's ground)",
 		"family reset-cont: a replica that was reset (Blockchain.Reset on a stopped node) and went on - as the same instance or after a restart - is additionally compared, at every height of its final chain, with a reference replica that was given the surviving blocks only (state root, flat storage, live invocation results; the reference must accept every block and the reset replica must accept every block valid on the surviving chain); a pruning replica refusing the first block after a reset is the open finding of C02 (reset-prune) and ends the case at the reset height",
 	})
 }
